@@ -1347,6 +1347,31 @@ class Gen:
             # regular, not vertex transitive: the symmetry number must still be exact
             yield dict(k="symnum", s=a)
             yield dict(k="symnum", s=b)
+        if 2 * n <= 12 and not in_roles and self.room() and rng.random() < 0.7 \
+                and self.w.graph(a) is not None and self.w.graph(b) is not None:
+            # both partners as the two molecules of one graph: components that
+            # colour refinement cannot tell apart and that are not copies
+            ma, mb = self.w.slots[a].model, self.w.slots[b].model
+            top = max(list(ma.atoms) + list(mb.atoms)) + 1 + rng.randrange(3)
+            ren = {x: top + i for i, x in enumerate(sorted(mb.atoms))}
+            u = self.slot_id()
+            atoms = [[x, z] for x in ma.atoms] + [[ren[x], z] for x in mb.atoms]
+            bonds = [sorted(bd) + [None] for bd in ma.bonds] + [sorted(ren[x] for x in bd) + [None] for bd in mb.bonds]
+            rng.shuffle(atoms)
+            rng.shuffle(bonds)
+            yield dict(k="spec", dst=u, cls=kind, atoms=atoms, bonds=bonds, reserved=True)
+            if self.w.graph(u) is not None:
+                if kind == "SMG":
+                    yield dict(k="symnum", s=u)
+                yield dict(k="probe_twin", s=u, seed=rng.randrange(2 ** 31), route="fresh")
+                if self.room() and rng.random() < 0.5:
+                    e = self.slot_id()
+                    yield dict(k="enum_open", g1=u, g2=u, dst=e, stereo=False, changes=False, labels=None)
+                    if e in self.w.slots:
+                        yield dict(k="gen_drain", g=e, tamper=None)
+                        yield dict(k="gen_close", g=e, how="close")
+                if u in self.w.slots and not self.w.slots[u].locks:
+                    yield dict(k="drop", s=u)
         if self.room() and rng.random() < 0.7:
             e = self.slot_id()
             yield dict(k="enum_open", g1=a, g2=b, dst=e, stereo=False, changes=False, labels=None)
@@ -1709,8 +1734,10 @@ class Gen:
         stereo = m1.is_stereo and m2.is_stereo and rng.random() < 0.7
         changes = stereo and m1.has_changes and m2.has_changes and rng.random() < 0.7
         e = self.slot_id()
-        yield dict(k="enum_open", g1=g1, g2=g2, dst=e, stereo=stereo, changes=changes,
-                   labels=rng.choice((None, None, None, "coarse", "degree")))
+        lab = rng.choice((None, None, None, "coarse", "degree", "marked"))
+        if lab == "marked":
+            lab = f"marked:{rng.randrange(12)}:{rng.randrange(12)}"
+        yield dict(k="enum_open", g1=g1, g2=g2, dst=e, stereo=stereo, changes=changes, labels=lab)
         if e not in self.w.slots:
             return
         # consume lazily; the scheduler interleaves other callers in between
